@@ -35,7 +35,7 @@ CLAIMED["C12"] = dict(
     technique="TLA+ Auth models checked by TLC; TLC-generated sequences + enumerated mutation classes run on the real authenticators; TLC-evaluated monitors on recorded outcomes",
 )
 CLAIMED["C18"] = dict(
-    category="fault_enumeration",
+    category="model_checking",
     text="TLC exhausts the transaction machine (Tx.tla/TxCore.tla: every statement program up to 3-4 statements x every failing position x fault kind, both database/sql and pgx semantics, plus the concrete program table of all 20 transactional adapter methods) and then checks every statement/transaction trace recorded from the REAL MySQL and PostgreSQL adapters (fake database/sql driver; fake PostgreSQL backend on pgproto3) with one fault injected at every round trip (BEGIN, PREPARE, each statement, COMMIT; error, connection loss, result-set error, deadline) for every branch of every transactional method, and the store-level compositions Users.Create / Topics.Create / Messages.DeleteList: failing statement => ROLLBACK and no COMMIT, error returned, no transaction left open, no write outside BEGIN..COMMIT. Exhaustive over operations x fault positions: the quantifier of the property.",
     note="Trusted: the database honours BEGIN/COMMIT/ROLLBACK (effects inside a transaction are not executed: no SQL engine offline); the fake drivers' canned results steer each branch; MongoDB/RethinkDB adapters are outside the claim.",
     technique="TLA+ transaction machine checked by TLC; single-fault enumeration over the real SQL adapters through fake drivers; TLC-evaluated monitors + program conformance on recorded statement traces",
